@@ -87,6 +87,13 @@ KINDS = {
 
 
 def measure(case):
+    if case.get('after_failure'):
+        # history: a malformed file was parsed (and rejected) earlier in this process
+        import gtwrap.interface_parser as ip
+        try:
+            ip.Module.parseString('class Broken { void f( ; };')
+        except Exception:
+            pass
     if case['mode'] == 'chain':
         text = chain_text(case['pos'], case['a'], case['b'])
     else:
@@ -121,7 +128,14 @@ def run(ctx):
     for kind in KINDS:
         for n in sizes:
             cases.append({'mode': 'size', 'kind': kind, 'n': n})
+    # the same chains measured after a rejected input in the same process (pure template / pure namespace chains)
+    hist = []
+    for pos in ('argument', 'return'):
+        for d in range(1, Dmax + 1):
+            hist.append({'mode': 'chain', 'pos': pos, 'a': 0, 'b': d, 'after_failure': True})
+            hist.append({'mode': 'chain', 'pos': pos, 'a': d - 1, 'b': 1, 'after_failure': True})
     res = ctx.map(measure, cases, chunksize=4)
+    resh = ctx.map(measure, hist, chunksize=4)
     steps = {}
     cpu_total = 0.0
     for c, r in res:
@@ -131,6 +145,15 @@ def run(ctx):
             cpu_total += r['cpu']
     worst = (0, None)
     nratios = 0
+    # history independence: the cost after a rejected input equals the cost in a fresh process
+    fresh = {(c['pos'], c['a'], c['b']): r.get('steps') for c, r in res if c['mode'] == 'chain'}
+    for c, r in resh:
+        f = fresh.get((c['pos'], c['a'], c['b']))
+        if f and r.get('steps') and r['steps'] > 1.5 * f:
+            sig = 'C19|cost-depends-on-earlier-rejected-input|%s' % c['pos']
+            ctx.add_violation(sig, 'after a rejected input in the same process, parsing (namespace depth %d, template depth %d, %s) costs '
+                                   '%d activations instead of %d' % (c['a'], c['b'], c['pos'], r['steps'], f),
+                              {'pair': [dict(c, after_failure=False), c], 'limit': 1.5, 'sig': sig})
     for pos in POSITIONS:
         for a in range(0, Dmax + 1):
             for b in range(1, Dmax + 1 - a):
@@ -170,7 +193,7 @@ def run(ctx):
                                   {'pair': [{'mode': 'size', 'kind': kind, 'n': 25}, {'mode': 'size', 'kind': kind, 'n': n}],
                                    'limit': 2.0 * n / 25, 'sig': sig})
     return {
-        'evaluations': len(cases),
+        'evaluations': len(cases) + len(hist),
         'distinct_nontrivial': len(steps),
         'rule': 'all (namespace depth a, template depth b) with a + b <= %d in 6 type positions, and files of n in %s declarations '
                 'of 8 kinds; cost = pyparsing function activations; %d consecutive-depth / size ratios evaluated'
